@@ -77,6 +77,7 @@ def check(ctx) -> None:
     ctx.rule("C29.table", "every destructive os/shutil/Path entry of the patch table has forget_arg_idx, every overwriting one `overwrites`, every copying one record_dst_idx", floor=19)
     ctx.rule("C29.exit", "__exit__ un-patches (exit stack closed) before the cleanup loop, deletes only elements of _created through the loop variable, and clears the set", floor=4)
     ctx.rule("C29.patches", "every patch(...) / patch.object(...) / patch.dict(...) is entered on the exit stack", floor=5)
+    ctx.rule("C29.bookkeeping", "WHO-MAY-SHRINK: _created loses entries only by the exact-path discard in _forget, by clear() in __exit__, or by a separator-terminated prefix selection", floor=2)
     ctx.rule("C29.foreign", "_is_foreign is `exists and not in _created`, exempting only the isolation's own temporary directory", floor=2)
 
     mod = repo.module(FS)
@@ -238,13 +239,53 @@ def check(ctx) -> None:
     p = cfg.path([b for h in heads for b, lab in cfg.succ[h] if lab == "exhausted"] or heads, [cfg.exit], avoid_nodes=clears, labels_excluded=("exc",))
     ctx.check("C29.exit", lp, bool(clears) and p is None, "_created is not cleared after the cleanup", what="_created cleared after cleanup", stmt="[clear]")
 
+    # ------------------------------------------------------------------ C29.bookkeeping: who may shrink _created
+    for qn, fn in mod.functions.items():
+        if not qn.startswith(CLS + "."):
+            continue
+        for n in own_nodes(fn):
+            kind = None
+            if isinstance(n, ast.Call) and isinstance(n.func, ast.Attribute) and norm(n.func.value) == "self._created" and n.func.attr in ("discard", "remove", "pop", "clear", "difference_update", "intersection_update", "symmetric_difference_update"):
+                kind = n.func.attr
+            if isinstance(n, ast.AugAssign) and norm(n.target) == "self._created" and isinstance(n.op, (ast.Sub, ast.BitAnd, ast.BitXor)):
+                kind = "augassign"
+            if isinstance(n, ast.Assign) and any(norm(t) == "self._created" for t in n.targets) and not qn.endswith("__init__"):
+                kind = "rebind"
+            if kind is None:
+                continue
+            ctx.analysed(fn)
+            ok = False
+            why = f"`{norm(n)[:80]}`"
+            if kind == "discard" and qn.endswith("._forget"):
+                ok = True
+            elif kind == "clear" and qn.endswith(".__exit__"):
+                ok = True
+            elif kind in ("difference_update", "augassign"):
+                arg = n.args[0] if isinstance(n, ast.Call) else n.value
+                src = arg
+                if isinstance(arg, ast.Name):
+                    d = [x for x in own_nodes(fn) if isinstance(x, ast.Assign) and norm(x.targets[0]) == arg.id]
+                    src = d[0].value if len(d) == 1 else None
+                if isinstance(src, (ast.ListComp, ast.SetComp, ast.GeneratorExp)) and len(src.generators) == 1 and len(src.generators[0].ifs) == 1:
+                    cond = src.generators[0].ifs[0]
+                    if isinstance(cond, ast.Call) and last_attr(cond) == "startswith" and cond.args and isinstance(cond.args[0], ast.BinOp) and norm(cond.args[0].right) in ("os.sep", "os.path.sep", "'/'"):
+                        ok = True
+                    else:
+                        why += f": entries are selected by `{norm(cond)}` - a bare prefix test also matches siblings whose name merely extends the path (`out` / `out.tar`)"
+            ctx.check("C29.bookkeeping", n, ok, f"{qn} drops entries from _created by {why}: a path created during the execution is forgotten without having been removed and survives the isolation", what=f"{qn}: {kind} of _created is an accepted form")
+
     # ------------------------------------------------------------------ C29.foreign
     isf = repo.func(FS, f"{CLS}._is_foreign")
     ctx.analysed(isf)
     rets = [n for n in own_nodes(isf) if isinstance(n, ast.Return) and not (isinstance(n.value, ast.Constant) and n.value.value is False)]
     main = [r for r in rets if isinstance(r.value, ast.BoolOp)]
-    ok = len(main) == 1 and isinstance(main[0].value.op, ast.And) and any("lexists" in norm(v) or "exists" in norm(v) for v in main[0].value.values) and any(re.fullmatch(r"\w+ not in self\._created", norm(v)) for v in main[0].value.values) and len(rets) == 1
-    ctx.check("C29.foreign", isf, ok, "_is_foreign is no longer `exists(path) and abs(path) not in self._created`", what="foreign = exists and not created")
+    def _exists_lit(v):
+        t = norm(v)
+        # must not follow symlinks: a pre-existing dangling link is a pre-existing path
+        return t.startswith("os.path.lexists(") or ("is_symlink()" in t and "exists()" in t and isinstance(v, ast.BoolOp) and isinstance(v.op, ast.Or))
+
+    ok = len(main) == 1 and isinstance(main[0].value.op, ast.And) and any(_exists_lit(v) for v in main[0].value.values) and any(re.fullmatch(r"\w+ not in self\._created", norm(v)) for v in main[0].value.values) and len(rets) == 1
+    ctx.check("C29.foreign", isf, ok, "_is_foreign is no longer `lexists(path) and abs(path) not in self._created` (an existence test that follows symlinks or rejects bytes paths misses pre-existing dangling links / byte-named files)", what="foreign = lexists and not created")
     exempt = [n for n in own_nodes(isf) if isinstance(n, ast.If) and any(isinstance(x, ast.Return) and isinstance(x.value, ast.Constant) and x.value.value is False for x in n.body)]
     names = {norm(x) for e in exempt for x in ast.walk(e.test) if isinstance(x, ast.Name)}
     defs = {norm(n.targets[0]): norm(n.value) for n in own_nodes(isf) if isinstance(n, ast.Assign)}
